@@ -150,6 +150,20 @@ CHECKS["C04"] = dict(
     technique="Coq proof (algebra over Q) + exhaustive equilibrium-certificate correspondence by vm_compute",
     design="4/C04")
 
+CHECKS["C16"] = dict(
+    text="Theorems about a keyed-store model of save/load with dynamically typed values (Python vs NumPy scalars): every "
+         "persisted field comes back equal up to the numeric tower, nothing is invented, numeric options stay numeric, "
+         "insertion-ordered containers keep their order.  Facts about the source regenerated on every run and proved by "
+         "computation: each class reads exactly the keys it writes, every constructor attribute is written (minus declared "
+         "runtime-only ones), the three containers are created with track_order, the loader dispatches every type tag to "
+         "the class that wrote it, the spring conversion accepts any real number.  Tied by typed deep comparison of "
+         "saved/reloaded random receivers incl. boundary-condition evaluations, spring conversion and life on both.",
+    note="Trusted: h5py attribute typing and creation-order iteration (hypotheses of the model, observed on every case); the "
+         "ast translator.  Stages other than life (thermal/structural re-solves on the reloaded receiver) are represented by "
+         "equality of every input field and BC evaluation.",
+    technique="Coq proof (assoc-list round trip) + generated source facts by vm_compute + typed differential round-trip runs",
+    design="4/C16")
+
 NOT_YET = {}
 
 def main():
